@@ -1,5 +1,6 @@
 import Irismod.Props.C17
-open Irismod Irismod.Oracle Irismod.Spec.C17 Irismod.Props.C17
+import Irismod.Proofs.OracleMonitor
+open Irismod Irismod.Oracle Irismod.Spec.C17 Irismod.Props.C17 Irismod.Proofs.OracleMonitor
 #print axioms aggregates_correct
 #print axioms max_all_negative_regression
 #print axioms max_correct
@@ -24,6 +25,13 @@ open Irismod Irismod.Oracle Irismod.Spec.C17 Irismod.Props.C17
 #print axioms history_is_newest_prefix
 #print axioms freshRun_of_increasing
 #print axioms history_is_newest_reachable
+-- monitor soundness: every clause the driver evaluates holds on every model step (Proofs/OracleMonitor.lean)
+#print axioms monitor_sound
+#print axioms monitor_sound_run
+#print axioms step_never_panics
+#print axioms aggVerdict_sound
+#print axioms aggregateSpecs_none
+#print axioms withinTol_of_rounded
 -- non-vacuity: the demo history (two feeds, batches on both, an all-negative `max` batch, an automatic
 -- pause, a shrinking edit, a stranger's start) reaches a state with stored values, a paused and a running
 -- feed; the hypotheses of `done_appends` hold for a further batch on it and its conclusion is visible
